@@ -3,7 +3,7 @@ PROP = {'engine': 'stack',
  'test': 'TestC01',
  'level': 'exploration',
  'quick': {'checks': 240, 'shards': 12, 'timeout': 900},
- 'thorough': {'checks': 4000, 'shards': 14, 'timeout': 3000},
+ 'thorough': {'checks': 8000, 'shards': 14, 'timeout': 3400},
  'rule': 'rapid draws 1-6 invocations on one emulator instance (fresh host subprocess per case): payload length from '
          '{0,1,2,255,4095..4097,64Ki,1Mi,limit-1..limit+1,limit+4Ki} or random, content zero/ascii/json/random/non-UTF-8; client context '
          'absent/JSON/UTF-8 text; trace header; runtime outcome per invocation ok/error/re-poll/crash/stall/oversize response; 0-1 extension. Oracle '
